@@ -52,6 +52,9 @@ func checkC06(c *core.Ctx) {
 	c06Siblings(c)
 }
 
+// c06RuleOverride lets another property (C05: choice of store) evaluate the same laws under its own rule name.
+var c06RuleOverride string
+
 type storeRig struct {
 	c      *core.Ctx
 	in     *ordabs.Interp
@@ -186,6 +189,28 @@ func (r *storeRig) count(store ordabs.Value) (int64, error) {
 	return n, nil
 }
 
+// preds returns the listed predicates as "sym/arity", sorted, duplicates kept.
+func (r *storeRig) preds(store ordabs.Value) ([]string, error) {
+	f := r.fn("ListPredicates")
+	if f == nil {
+		return nil, fmt.Errorf("method missing")
+	}
+	out, err := r.in.Call(f, store, nil)
+	if err != nil {
+		return nil, err
+	}
+	var res []string
+	if sl, _ := out[0].(*ordabs.Slice); sl != nil {
+		for _, p := range *sl.Elems {
+			if pr, ok := p.(*ordabs.Rec); ok {
+				res = append(res, fmt.Sprintf("%v/%v", pr.Fields["Symbol"], pr.Fields["Arity"]))
+			}
+		}
+	}
+	sort.Strings(res)
+	return res, nil
+}
+
 type storeOp struct {
 	add  bool
 	atom int
@@ -195,6 +220,9 @@ func c06Laws(c *core.Ctx, k *astKit, ck *constKit, impl storeImpl, collide bool)
 	rule := rC06Laws
 	if collide {
 		rule = rC06Coll
+	}
+	if c06RuleOverride != "" {
+		rule = c06RuleOverride
 	}
 	r := newStoreRig(c, k, ck, impl, collide)
 	atoms := []*ordabs.Rec{r.mkAtom("p", 1, 1), r.mkAtom("p", 1, 2), r.mkAtom("p", 2, 1), r.mkAtom("z")}
@@ -269,6 +297,33 @@ func c06Laws(c *core.Ctx, k *astKit, ck *constKit, impl storeImpl, collide bool)
 		}
 		if int(n) != len(model) && bad == "" {
 			bad = fmt.Sprintf("history:%s: EstimateFactCount=%d, the set has %d atoms", desc, n, len(model))
+		}
+		// predicate listing: every predicate that has a stored atom is listed, once; nothing is listed that was never added
+		listed, err := r.preds(store)
+		if !runORD(c, rule, "factstore."+impl.name, anchor, err) {
+			return false
+		}
+		ever := map[string]bool{}
+		for _, op := range hist {
+			if op.add {
+				ever[map[bool]string{true: "z/0", false: "p/2"}[op.atom == 3]] = true
+			}
+		}
+		seenP := map[string]int{}
+		for _, p := range listed {
+			seenP[p]++
+			if (!ever[p] || seenP[p] > 1) && bad == "" {
+				bad = fmt.Sprintf("history:%s: ListPredicates yields %v (a predicate that was never added, or one listed twice)", desc, listed)
+			}
+		}
+		for kx := range model {
+			p := "p/2"
+			if kx == "z()" {
+				p = "z/0"
+			}
+			if seenP[p] == 0 && bad == "" {
+				bad = fmt.Sprintf("history:%s: the store holds %s but ListPredicates yields %v: enumeration through ListPredicates (GetAllFacts, Merge, saving to a file) loses the fact", desc, kx, listed)
+			}
 		}
 		for _, qq := range queries {
 			got, err := r.facts(store, qq.pat)
@@ -788,5 +843,25 @@ func c06Temporal(c *core.Ctx, k *astKit, ck *constKit) {
 		}
 		sort.Strings(atoms)
 		c.Check(fmt.Sprint(atoms) == "[p(1) p(2)]", rule, "factstore.TemporalFactStoreAdapter", gf.Decl.Pos(), "each atom once ("+mode+")", fmt.Sprintf("the temporal store holds p(1) (two intervals) and p(2); the adapter's GetFacts yields %v, want [p(1) p(2)]", atoms))
+		// the adapter pinned to one instant: p(1) holds there through two overlapping, un-coalesced intervals
+		ar.in.Stubs["factstore.ReadOnlyTemporalFactStore.GetFactsAt"] = func(in *ordabs.Interp, _ ordabs.Value, args []ordabs.Value) ([]ordabs.Value, error) {
+			for _, tf := range []ordabs.Value{mkTF(a1, 1, 6), mkTF(a1, 5, 6), mkTF(a2, 1, 6)} {
+				o, err := in.CallValue(args[2], []ordabs.Value{tf})
+				if err != nil {
+					return nil, err
+				}
+				if o[0] != nil {
+					return o, nil
+				}
+			}
+			return []ordabs.Value{nil}, nil
+		}
+		pinned := &ordabs.Obj{Name: "adapter", Fields: map[string]ordabs.Value{"temporal": &ordabs.Obj{Name: "t", Opaque: true}, "queryAt": ordabs.NewVarPtr(ordabs.TimeVal{NS: 5})}}
+		atoms = nil
+		if _, err := ar.in.Call(gf, pinned, []ordabs.Value{r.mkAtom("p", -1), acb}); !runORD(c, rule, gf.Name+":at-instant", gf, err) {
+			continue
+		}
+		sort.Strings(atoms)
+		c.Check(fmt.Sprint(atoms) == "[p(1) p(2)]", rule, "factstore.TemporalFactStoreAdapter:at-instant", gf.Decl.Pos(), "each atom once at a pinned instant ("+mode+")", fmt.Sprintf("at instant 5 the temporal store holds p(1) (through two overlapping intervals) and p(2); the pinned adapter's GetFacts yields %v, want [p(1) p(2)]", atoms))
 	}
 }
